@@ -211,3 +211,81 @@ Proof.
   - unfold integrate_bins. destruct o; cbn [spectrum_after emitted]; try ring.
     rewrite Qsum_map_add. ring.
 Qed.
+
+(* ---- linearity in the density of each neutral hydrogen isotope, on the level of the composition --------------------- *)
+Lemma get_key comp h s : comp_get comp h 0 = Some s -> s_elem s = h /\ s_charge s = 0%Z.
+Proof.
+  intro G. apply comp_get_key in G. unfold key_eqb in G. apply andb_true_iff in G. destruct G as [A B].
+  apply Z.eqb_eq in A, B. tauto.
+Qed.
+
+Lemma dens_or_0_upd_same comp h n s : comp_get comp h 0 = Some s -> dens_or_0 (upd_dens h 0 n comp) h == n.
+Proof.
+  intro G. unfold dens_or_0. rewrite comp_get_upd, G. cbn [option_map].
+  rewrite (upd_species_same _ _ _ _ (comp_get_key _ _ _ _ G)). reflexivity.
+Qed.
+
+Lemma dens_or_0_upd_other comp h n h' : h' <> h -> dens_or_0 (upd_dens h 0 n comp) h' == dens_or_0 comp h'.
+Proof.
+  intro Hne. unfold dens_or_0. rewrite comp_get_upd. destruct (comp_get comp h' 0) as [s'|] eqn:G; [|reflexivity].
+  cbn [option_map]. destruct (get_key _ _ _ G) as [E _].
+  rewrite upd_species_other; [reflexivity|]. unfold key_eqb. rewrite E.
+  destruct (Z.eqb_spec h' h); [contradiction|reflexivity].
+Qed.
+
+Lemma hyd_sum_upd_notin comp h n l : ~ In h l ->
+  Qsum (map (dens_or_0 (upd_dens h 0 n comp)) l) == Qsum (map (dens_or_0 comp) l).
+Proof.
+  induction l as [|x t IH]; intro H; [reflexivity|]. cbn [map Qsum].
+  assert (E1 : dens_or_0 (upd_dens h 0 n comp) x == dens_or_0 comp x)
+    by (apply dens_or_0_upd_other; intro E; apply H; left; exact E).
+  assert (E2 := IH (fun E => H (or_intror E))). rewrite E1, E2. reflexivity.
+Qed.
+
+Lemma hyd_sum_upd_in comp h n s l : comp_get comp h 0 = Some s -> NoDup l -> In h l ->
+  Qsum (map (dens_or_0 (upd_dens h 0 n comp)) l) == Qsum (map (dens_or_0 comp) l) - s_dens s + n.
+Proof.
+  intros G. induction l as [|x t IH]; intros Hnd Hin; [destruct Hin|].
+  inversion Hnd as [|? ? Hx Ht]; subst. cbn [map Qsum]. destruct Hin as [->|Hin].
+  - assert (E1 := dens_or_0_upd_same comp h n s G). assert (E2 := hyd_sum_upd_notin comp h n t Hx).
+    rewrite E1, E2. unfold dens_or_0 at 2. rewrite G. ring.
+  - assert (Hxh : x <> h) by (intro E; subst; contradiction).
+    assert (E1 := dens_or_0_upd_other comp h n x Hxh). assert (E2 := IH Ht Hin). rewrite E1, E2. ring.
+Qed.
+
+(* n_hyd is linear in the density of each hydrogen isotope present in the composition *)
+Lemma hyd_density_linear hyd comp h s n : comp_get comp h 0 = Some s -> NoDup hyd -> In h hyd ->
+  hyd_density hyd (upd_dens h 0 n comp) == hyd_density hyd (upd_dens h 0 0 comp) + n.
+Proof.
+  intros G Hnd Hin. rewrite !hyd_density_sum.
+  rewrite (hyd_sum_upd_in comp h n s hyd G Hnd Hin), (hyd_sum_upd_in comp h 0 s hyd G Hnd Hin). ring.
+Qed.
+
+Lemma pos_comp x y : x == y -> pos x = pos y.
+Proof. intro E. unfold pos. rewrite E. reflexivity. Qed.
+
+Lemma total_power_density_nhyd_comp P e c ne te ni nup x y : x == y ->
+  total_power_density P e c ne te ni nup x == total_power_density P e c ne te ni nup y.
+Proof.
+  intro E. unfold total_power_density, cx_term. rewrite (pos_comp x y E).
+  destruct (pos nup && pos y); rewrite ?power_term_on, ?power_term_off; rewrite ?E; reflexivity.
+Qed.
+
+(* the power density as a function of the density n of one hydrogen isotope of the composition: affine, as long as the
+   summed hydrogen density stays on the positive side of its guard *)
+Lemma total_power_linear_isotope P hyd e c ne te ni nup comp h s n :
+  comp_get comp h 0 = Some s -> NoDup hyd -> In h hyd ->
+  0 <= hyd_density hyd (upd_dens h 0 0 comp) -> 0 < hyd_density hyd (upd_dens h 0 0 comp) + n ->
+  total_power_density P e c ne te ni nup (hyd_density hyd (upd_dens h 0 n comp)) ==
+  total_power_density P e c ne te ni nup (hyd_density hyd (upd_dens h 0 0 comp))
+  + n * (if pos nup then nup * coef (prc_rate P e (c + 1)) ne te else 0).
+Proof.
+  intros G Hnd Hin H0 Hn.
+  rewrite (total_power_density_nhyd_comp _ _ _ _ _ _ _ _ _ (hyd_density_linear hyd comp h s n G Hnd Hin)).
+  set (R := hyd_density hyd (upd_dens h 0 0 comp)) in *.
+  rewrite (total_power_linear_nhyd P e c ne te ni nup (R + n) Hn).
+  destruct (Qlt_le_dec 0 R) as [HR|HR].
+  - rewrite (total_power_linear_nhyd P e c ne te ni nup R HR). ring.
+  - assert (E : R == 0) by lra.
+    rewrite (total_power_density_nhyd_comp P e c ne te ni nup R 0 E). rewrite E. ring.
+Qed.
